@@ -420,6 +420,43 @@ func init() {
 			},
 		})
 	}
+	// tune-up-quiet: a raise of the limit with jobs pending and nothing else happening afterwards (no submission, no
+	// completion) must by itself put the new slots to use - with and without idle-worker expiry configured (C03, C18)
+	for _, kp := range []kindPair{{Plain, Fifo}, {ErrW, Prio}} {
+		for _, expiry := range []bool{false, true} {
+			kp, expiry := kp, expiry
+			nm := name("tune-up-quiet/%s", kp)
+			if expiry {
+				nm += "/expiry"
+			}
+			Register(&Scenario{
+				Name:  nm,
+				Props: []string{"C03", "C18", "C02"},
+				Mode:  "NB", Quick: 2, Thorough: 3, Shards: 4,
+				Body: func(h *H) {
+					h.Shape = Gated
+					var opts []any
+					if expiry {
+						opts = append(opts, varmq.WithIdleWorkerExpiryDuration(time.Hour))
+					}
+					w := h.NewWorker(kp.W, 1, opts...)
+					w.Expiry = expiry
+					q := w.Bind(kp.Q, nil)
+					for i := 0; i < 4; i++ {
+						q.Add(i, AddOpt{Prio: i})
+					}
+					h.Quiesce(false)
+					w.TunePool(3)
+					h.Quiesce(false)
+					if w.Peak != 3 {
+						h.viol("C18", "C18.tune-peak", fmt.Sprintf("peak of %d simultaneous jobs after TunePool(3) with 4 jobs accepted and nothing else happening", w.Peak))
+					}
+					h.OpenAll(0, 1, 2, 3)
+					h.End()
+				},
+			})
+		}
+	}
 	// the limit set by TunePool survives Restart and Stop/Restart
 	for _, viaStop := range []bool{false, true} {
 		viaStop := viaStop
